@@ -7,6 +7,7 @@ import Driver.Finder
 import Driver.Discover
 import Driver.Attrs
 import Driver.Serve
+import Driver.Media
 open Lean
 
 def dispatch (j : Json) : Except String Json := do
@@ -25,6 +26,8 @@ def dispatch (j : Json) : Except String Json := do
   | "slotesc" => Driver.AttrsD.handleSlot j
   | "guard" => Driver.AttrsD.handleGuard j
   | "serve" => Driver.ServeD.handle j
+  | "media" => Driver.MediaD.handle j
+  | "mediaattr" => Driver.MediaD.handleAttr j
   | "ping" => pure (Json.mkObj [("pong", Json.bool true)])
   | _ => throw s!"unknown op {op}"
 
